@@ -21,6 +21,11 @@ CLAIMS = {
   text="Coq theorems C02_tree / C02_subexpressions: whenever the model of the generated parser succeeds, the value it assembled piecewise through the templates (post-processing, sequence destructure/extend, choice conversion and defaults, optional defaults, closure accumulation, struct/override/@string assembly) equals the value the specification builds from the ordered field-match events of the successful path grouped by declared arity; for every sub-expression the events mention only its own field names. Tied by the correspondence stream; oracle = implementation tree vs extracted S tree.",
   note=TB + "Stated for grammars without memo/leftrec and pure hooks (memoized grammars: C05). Box is invisible in Debug and is not compared.",
   technique="Coq simulation proof with value relation (templates' assembly = shape of events) + differential correspondence"),
+ "C04": dict(
+  category="proof",
+  text="Coq theorem C04_all (instance of the generic invariant theorem Inv.m_invariant, proved for every grammar incl. @memoize/@leftrec, any decision-point configuration of record_error/arity tables, arbitrary stateful hooks whose extern functions return a boundary length): on valid UTF-8 input the model never reaches the runtime's panic sites (index, advance overrun, non-boundary advance = the cfg(peginator_verif) assertion), every state is anchored at a char boundary of the input with valid prefix and suffix, every reported error position is such a boundary (C04_boundary, C04_errpos); C04_guard / C04_guard_refuted: the compile-time ASCII guard of i-literals is present and load-bearing. The nine unchecked advance call sites are modelled one-to-one in Terminals.v and proved in TerminalsOk.v. Partial: stack exhaustion and the memory safety of get_unchecked itself are runtime facts; the theorem proves the precondition the unsafe block relies on.",
+  note=TB + "Hook on in every correspondence run (RUSTFLAGS --cfg peginator_verif). `slice_until` (safe slicing) is modelled as total; its offsets are anchored states' offsets, hence boundaries.",
+  technique="Coq generic invariant theorem instantiated with UTF-8 anchoring + byte-level proofs of all matchers + differential runs with the boundary assertion"),
  "C08": dict(
   category="proof",
   text="The specification S skips whitespace exactly at the documented points (before every field/rule reference, literal, range and $ of a skipping rule; included bodies under the includer's flag; callee rules under their own flag; the grammar's Whitespace rule shadowing the built-in). Coq: C08_points (M agrees with S on every consumed byte, by the simulation), C08_noskip, C08_callee, C08_builtin / C08_ws_set / C08_longest (the built-in skipper consumes the longest prefix over exactly the five ASCII whitespace bytes, proved over UTF-8 bytes). Oracle: implementation vs extracted S on inputs with whitespace and near misses (U+000B, U+00A0, U+2003) incl. user-defined Whitespace.",
@@ -41,6 +46,11 @@ CLAIMS = {
   text="Coq: C14_checks_spec (a rule with checks matches iff body matches and every check is true on the produced value, first failure wins), C14_conform (M = S with checks/externs as pure oracles: verdict, value passed to checks, consumed bytes, error), C14_run_checks (for arbitrary stateful hooks: directive order, stop at first false, ordinary Err at the body's end state), C14_extern (extern receives exactly the remaining input and the user state; Ok((v,n)) yields v and advances n through the checked advance). Correspondence: hook invocation logs and results equal the model's, with and without a user context.",
   note=TB + "User functions are oracles; the harness ships a fixed library with Gallina twins (Hooks.v).",
   technique="Coq simulation proof + wrapper-level lemmas + differential correspondence of hook-call logs"),
+ "C19": dict(
+  category="proof",
+  text="Coq theorems C19_balanced / C19_every_call (instance of Inv.m_invariant; every grammar incl. memoized and left-recursive rules, failing checks, externs, any hooks, any decision-point configuration): the tracer callback sequence of a returning parse is balanced (each print_trace_start followed by exactly one matching print_trace_result; running depth never below zero, zero at the end), a non-returning run produced a prefix of one. Correspondence: the recording tracer's sequence equals the model's log exactly on every stream case. Oracle: balance of the implementation's own sequence; NoopTracer vs recording tracer vs the real IndentedTracer (debug build, overflow checks) return the same result. Partial: 'the tracer log is write-only' (C19_transparent) is not yet a theorem about the model; it is covered by the oracle.",
+  note=TB,
+  technique="Coq generic invariant theorem instantiated with trace balance + exact trace correspondence"),
  "C10": dict(
   category="proof",
   text="Coq theorem C10_furthest: without memoized/left-recursive rules a reported error is the furthest-latest entry of the specification's log of failed attempts (lookahead scoping as the property states); C10_record_error pins the <= of record_error. Oracle on the implementation: position inside the input on a char boundary, never the sentinel, equal to the furthest-latest attempt of the extracted S. The 'really failed during that parse' clause for memoized/left-recursive grammars is checked by the oracle only (no theorem yet): partial.",
